@@ -6,8 +6,10 @@
    The semantics produces the trace of external calls ("effects") that were
    carried out, and says how start-up ended: Running, Abort (an exception left
    the entry function; with the index of the failing call when it came from an
-   injected failure), Exited (sys.exit).  Exactly one call can be made to fail:
-   the k-th external call that is *executed* raises an exception of class x.
+   injected failure), Exited (sys.exit).  The injected failure: the k-th external
+   call that is *executed* raises an exception of class x — and, for the
+   correspondence runs, so do the following n-1 calls or every later call (a
+   resource that stays unavailable).
    Definitions only. *)
 From Coq Require Import String.
 From PG Require Import Lib.Str.
@@ -75,8 +77,9 @@ Record state := State {
 }.
 
 Record world := World {
-  w_fail : option (nat * xcls);       (* the k-th external call raises *)
-  w_results : list (str * value)      (* results of particular calls, e.g. os.fork; default: symbolic *)
+  w_fail : option (nat * xcls);       (* the k-th external call raises ... *)
+  w_results : list (str * value);     (* results of particular calls, e.g. os.fork; default: symbolic *)
+  w_span : option nat                 (* ... and so do the n-1 calls after it (None: every later call) *)
 }.
 
 Inductive res (A : Type) :=
@@ -188,7 +191,8 @@ Definition do_call (W : world) (f : str) (args : list value) (s : state) : res v
   let s1 := State (vars s) (cfg s) (trace s) (S k) (cur s) in
   match w_fail W with
   | Some (k', x) =>
-      if Nat.eqb k k' then RRaise x (Some k) s1
+      if Nat.leb k' k && match w_span W with None => true | Some n => Nat.ltb k (k' + n) end
+      then RRaise x (Some k) s1
       else ROk (match lookup f (w_results W) with Some v => v | None => sym_call f args end)
                (State (vars s) (cfg s) (Eff f (map show args) :: trace s) (S k) (cur s))
   | None =>
@@ -531,9 +535,9 @@ Definition child_results : list (str * value) := (lit "os.fork", VInt 0) :: root
 Definition parent_results : list (str * value) := (lit "os.fork", VInt 4242) :: root_id_results.
 
 Definition run_initialize (P : program) (o : opts) (fail : option (nat * xcls)) : outcome :=
-  run P (World fail child_results) (mkcfg o) (lit "initialize") [VStr (lit "pygopherd.conf")].
+  run P (World fail child_results (Some 1%nat)) (mkcfg o) (lit "initialize") [VStr (lit "pygopherd.conf")].
 Definition run_security (P : program) (o : opts) (fail : option (nat * xcls)) : outcome :=
-  run P (World fail child_results) (mkcfg o) (lit "init_security") [VSym (lit "config")].
+  run P (World fail child_results (Some 1%nat)) (mkcfg o) (lit "init_security") [VSym (lit "config")].
 
 Definition out_trace (o : outcome) : list effect :=
   match o with Running t | Abort _ t | Exited t => t | Stuck => [] end.
@@ -702,6 +706,6 @@ Definition wanted_cred (o : opts) (c : cred) : cred :=
        (if o_uid o || o_gid o then NOGROUPS else c_groups c).
 
 Definition run_initialize_from (P : program) (st : start) (o : opts) (fail : option (nat * xcls)) : outcome :=
-  run P (World fail ((lit "os.fork", VInt 0) :: start_results st o)) (mkcfg o) (lit "initialize") [VStr (lit "pygopherd.conf")].
+  run P (World fail ((lit "os.fork", VInt 0) :: start_results st o) (Some 1%nat)) (mkcfg o) (lit "initialize") [VStr (lit "pygopherd.conf")].
 Definition run_security_from (P : program) (st : start) (o : opts) (fail : option (nat * xcls)) : outcome :=
-  run P (World fail (start_results st o)) (mkcfg o) (lit "init_security") [VSym (lit "config")].
+  run P (World fail (start_results st o) (Some 1%nat)) (mkcfg o) (lit "init_security") [VSym (lit "config")].
